@@ -14,9 +14,10 @@ pub enum Policy {
     PassOften,
     FourSteps,
     RepSeek,
+    Restore,
 }
 
-pub const POLICIES: [Policy; 6] = [Policy::Uniform, Policy::PushPull, Policy::Capture, Policy::PassOften, Policy::FourSteps, Policy::RepSeek];
+pub const POLICIES: [Policy; 7] = [Policy::Uniform, Policy::PushPull, Policy::Capture, Policy::PassOften, Policy::FourSteps, Policy::RepSeek, Policy::Restore];
 
 /// Random material within the legal complement, three density regimes; `legal` removes hanging
 /// trap pieces; rabbits are kept off both goal ranks (keep-alive).
@@ -139,10 +140,16 @@ impl Player {
                 self.plan = p;
             }
         }
+        if step == 0 && self.policy == Policy::Restore && rng.chance(4, 5) {
+            if let Some(mut p) = restore_plan(g, 2500) {
+                p.reverse();
+                self.plan = p;
+            }
+        }
         let cands = self.filter_alive(s, va);
         let ab = arr(s.piece_board());
         let pick = match self.policy {
-            Policy::RepSeek => {
+            Policy::RepSeek | Policy::Restore => {
                 if let Some(a) = self.plan.pop() {
                     if va.contains(&a) {
                         a
@@ -207,6 +214,45 @@ impl Player {
         }
         pick
     }
+}
+
+/// Breadth-first search (rule-only lists, depth <= 4) for a turn of the side to move whose result
+/// is an earlier start-of-turn position: manufactures short repetition cycles, including the ones
+/// in which the opponent's move is undone by a push or pull.
+pub fn restore_plan(g: &Game, budget: usize) -> Option<Vec<Action>> {
+    let side = g.state.is_p1_turn_to_move();
+    let targets: Vec<&(B, bool)> = g.starts.iter().filter(|(_, sd)| *sd != side).collect();
+    if targets.is_empty() {
+        return None;
+    }
+    let mut frontier: Vec<(GameState, Vec<Action>)> = vec![(g.state.clone(), vec![])];
+    let mut nodes = 0;
+    for depth in 0..4 {
+        let mut next = vec![];
+        for (st, path) in &frontier {
+            let Some(va) = guard(|| st.valid_actions_no_rep()) else { continue };
+            for a in va {
+                nodes += 1;
+                if nodes > budget {
+                    return None;
+                }
+                let ends = matches!(a, Action::Pass) || depth == 3;
+                let Some(n) = guard(|| st.take_action(&a)) else { continue };
+                let mut p = path.clone();
+                p.push(a);
+                if ends {
+                    let k = (arr(n.piece_board()), n.is_p1_turn_to_move());
+                    if targets.iter().any(|t| **t == k) && k.0 != g.turn_boards[0] {
+                        return Some(p);
+                    }
+                } else {
+                    next.push((n, p));
+                }
+            }
+        }
+        frontier = next;
+    }
+    None
 }
 
 /// Plays `max_plies` actions from `g`, visiting (checking, emitting) every state.
